@@ -124,6 +124,19 @@ def run(ctx):
         seen.add((pi, f["what"]))
         if shown < 3:
             p = progs[pi]
+            if shown == 0:
+                what = f["what"]
+
+                def still(v, o=f["option"]):
+                    q = dict(prog=v, toks=fmtlib.annotate(v), text=fmtlib.plain_text(v), gap_comments={}, options=[tuple(o)],
+                             text_b=" " + fmtlib.plain_text(v).replace(" ", "  "))
+                    f2, _, _, _ = oracle(exe, dump, [q], all_options=False)
+                    return [x for x in f2 if x["what"] == what]
+                if still(p["prog"]):
+                    small = fmtlib.shrink_program(p["prog"], still)
+                    p = dict(prog=small, gap_comments={}, text=fmtlib.plain_text(small), text_b=" " + fmtlib.plain_text(small).replace(" ", "  "))
+                    f = still(small)[0]
+                    f["option"] = tuple(f["option"])
             ctx.violation(dict(kind="oracle", property="C11", program=p["prog"], gap_comments={str(k): v for k, v in p["gap_comments"].items()},
                                text=p["text"], text_b=p["text_b"], insert_spaces=f["option"][0], tab_size=f["option"][1],
                                failure={k: v for k, v in f.items() if k not in ("prog", "job")}))
@@ -192,13 +205,13 @@ PROVED = ("C11_null_iff (null exactly when the formatted text equals the documen
           "over the whole document), C11_client_unit / C11_indent_lines / C11_indent_unit (every line produced by `indent` is the unit - "
           "tabSize spaces or one tab - followed by the line it was given), C11_block_lines (exact line structure of a block), "
           "C11_nested_lines (by induction over the nesting: a statement d levels below another has each of its lines d units deeper in "
-          "it), C11_proc_stmt_lines / C11_proc_var_lines (procedure bodies are one unit deep), C11_printer_reads_kinds_only and "
-          "C11_canonical_partial (documents with the same token kinds and the same tree format identically; whitespace never reaches "
-          "the printers).")
-VALIDATED = ("C11_idempotent_full_statement (needs the re-parse of the formatted text: C04 + C09 part A) and C11_canonical_full_statement "
-             "(without the same-tree hypothesis: needs that the parser reads kinds only) are stated, not proved; both are checked on the "
-             "implementation by chained requests for every generated program and all 10 option settings, as is the exact indentation "
-             "depth of every output line.")
+          "it), C11_proc_stmt_lines / C11_proc_var_lines (procedure bodies are one unit deep), C11_printer_reads_kinds_only, "
+          "C11_parser_reads_kinds_only and C11_canonical (two documents whose token streams have the same kinds format identically: "
+          "whitespace and positions never reach parser or printers).")
+VALIDATED = ("C11_idempotent_full_statement (needs the re-parse of the formatted text: C04 + C09 part A) is stated, not proved; it is checked "
+             "on the implementation by chained requests for every generated program and all 10 option settings, as are the exact "
+             "indentation depth of every output line (depth from the generator's derivation), canonical output for two layouts and "
+             "null-iff-unchanged.")
 
 
 def replay(ctx, path):
